@@ -244,3 +244,9 @@ def nontrivial(case, result):
         v = from_digits(parse_L(toks[3]), w)
         return v >= 2
     return result.startswith("L:") and result.count(",") >= 1
+
+
+def prebuild(root):
+    """translator: regenerate coq/Generated/FmtGen.v (the fmt impls of src/buint/fmt.rs and src/bint/fmt.rs, tied to Model/Fmt.v
+    in Proofs/FmtGenTie.v, theorem C12_fmt_rs_matches_model)"""
+    return run_translator(root, "rs2v_fmt.py", "C12")
